@@ -15,8 +15,16 @@ Jobs(o, k, p, slow) ==
   IF k > Len(o) THEN <<>>
   ELSE <<[ok |-> o[k], dur |-> IF slow /\ k % 2 = 1 THEN p + 40 ELSE IF slow THEN 3 * p + 11 ELSE IF k % 3 = 2 THEN 7 ELSE 0]>>
        \o Jobs(o, k + 1, p, slow)
+(* the wait the loop is in after the k-th run of outcome sequence o, by the model (NextBackoff): a signal that     *)
+(* arrives `delay` = that wait after the run coincides with the timer - the loop sees both in the same poll        *)
+RECURSIVE BackoffAfter(_, _, _)
+BackoffAfter(o, k, p) ==      \* value of `backoff` before the k-th run ended
+  IF k = 1 THEN MinBackoff ELSE IF o[k - 1] THEN MinBackoff ELSE NextBackoff(p, BackoffAfter(o, k - 1, p), TRUE)
+WaitAfter(o, k, p) == IF o[k] THEN p ELSE BackoffAfter(o, k, p)
+TickPlaces(o, p) == {[after |-> k, delay |-> WaitAfter(o, k, p), sig |-> s, same_poll |-> TRUE] : k \in 1..Depth, s \in {"int", "term", "hup"}}
 Cases ==
   {[period |-> p, jobs |-> Jobs(o, 1, p, sl), signals |-> <<>>] : p \in Periods, o \in Outcomes, sl \in BOOLEAN}
+  \cup UNION {UNION {{[period |-> p, jobs |-> Jobs(o, 1, p, FALSE), signals |-> <<s>>] : s \in TickPlaces(o, p)} : o \in Outcomes} : p \in Periods}
   \cup UNION {{[period |-> p, jobs |-> Jobs(o, 1, p, FALSE), signals |-> <<s>>] : o \in Outcomes, s \in SigPlaces(p)} : p \in Periods}
 (* a long run of consecutive failures (far beyond the point where the delay stops growing), a recovery, *)
 (* and failures again: the delay must stay at the cap, return to the period, and restart at one minute *)
